@@ -70,6 +70,7 @@ def run(ctx):
     rng = C.SplitMix64(ctx["seed"])
     have_model = ctx["have_model"]
     D = W.Descs()
+    rep.extra["types_from_snapshot"] = D.broken is not None
     cache = W.OracleCache()
     if ctx.get("replay"):
         f = json.load(open(ctx["replay"]))
@@ -149,6 +150,31 @@ def run(ctx):
     cases.append(("Bytes", 0, big.to_bytes(4, "big") + b"\xab" * big, "bytes-big"))
     cases.append(("RequestRemovals" if "RequestRemovals" in D.top else "Bytes", 0, b"\x00" * 36 + b"\x01" + (3000).to_bytes(4, "big") + b"\x33" * 32 * 3000, "vec-long"))
     run_tot(rep, cache, have_model, "wire.tot.deep", cases, D)
+
+    # ProofOfSpace shapes the parser must reject in BOTH modes (a trusted parse that lets them through hands the
+    # receiver a value whose hash() panics in compute_plot_id / update_digest): v2 with both or neither of pool key /
+    # contract hash, versions >= 2, high prefix bits; with valid (test-vector) and junk proofs, bare and nested
+    cases = []
+    srng = rng.fork("pos-shapes")
+    Gs = W.Gen(D, P, srng)
+    bases = [list(v) for v in P.v2[:4]] + [Gs.pos("v1pk"), Gs.pos("v1c")]
+    g1 = P.g1[1] if len(P.g1) > 1 else W.INF1
+    for b in bases:
+        variants = [("v2-both", b[:1] + [("some", g1), ("some", b"\x22" * 32)] + b[3:]),
+                    ("v2-neither", b[:1] + [None, None] + b[3:]),
+                    ("version2", b[:4] + [2] + b[5:]), ("version3", b[:4] + [3] + b[5:]), ("version127", b[:4] + [127] + b[5:])]
+        for tag, v in variants:
+            bs, _ = W.encode(D, ("PoS",), v)
+            for tr in (0, 1):
+                cases.append(("ProofOfSpace", tr, bs, tag))
+            for n, idx in (("RewardChainBlockUnfinished", 3), ("RewardChainBlock", 5)):
+                if n in D.top and tag.startswith("v2-"):
+                    w = Gs.value(D.top[n])
+                    w[idx] = v
+                    wb, _ = W.encode(D, D.top[n], w)
+                    cases.append((n, 1, wb, tag + "-nested"))
+                    cases.append((n, 0, wb, tag + "-nested"))
+    run_tot(rep, cache, have_model, "wire.tot.pos", cases, D)
 
     # the known class, kept apart
     cases = []
